@@ -659,10 +659,10 @@ def space_analysis(pid, script_lines, impl, model, meta):
                 bound = 2 * n * ((1125 if bsz == 256 else 1063) + 10) // 1000 + 2600
                 if 8 * (ih + iself) > bound:
                     viol.append(dict(rec, type="impl-vs-spec", sub="C14-bound", spec=f"bits<={bound}", impl=f"bits={8 * (ih + iself)}"))
-            if pid == "C14" and fam in ("qv", "qvx", "qvpush", "qvext", "qvchain", "qvnf", "qvnfext"):
+            if pid == "C14" and fam in ("qv", "qvx", "qvpush", "qvext", "qvchain", "qvnf", "qvnfext", "qvfilt"):
                 # a plain quad vector, whichever way it was built: 2 bits per symbol, rounded up to one 512-bit line
-                vals_ = info["vals"][1:] if fam != "qv" and fam != "qvx" else info["vals"]
-                n = len([x for x in vals_ if x])
+                vals_ = info["vals"][1:] if fam not in ("qv", "qvx", "qvfilt") else info["vals"]
+                n = len([x for x in vals_ if x and not x.startswith("x")])
                 if fam in ("qvnf", "qvnfext") and info["vals"]:
                     n = min(n, int(info["vals"][0]))
                 bound = 2 * n + 512 + 64
